@@ -452,6 +452,11 @@ def oracle(ctx: Any, case: dict[str, Any], m: dict[str, Any], ops: list[list[Any
     ncancel = sum(1 for e in slog if e[0] == "on_cancel")
     if ncancel > 1:
         ctx.fail(case, f"C10:cancel:on_cancel-twice:{kindtag}", f"on_cancel ran {ncancel} times")
+    # the server's own order of calls: nothing is processed once on_cancel has run
+    flat_srv = [e for chunk in r["events"] for e in chunk if e[0] in ("process", "on_cancel")]
+    first = next((i for i, e in enumerate(flat_srv) if e[0] == "on_cancel"), None)
+    if first is not None and any(e[0] == "process" for e in flat_srv[first + 1:]):
+        ctx.fail(case, f"C10:cancel:process-after-cancel:{kindtag}", f"process() ran after on_cancel: {flat_srv}")
     if ci is not None:
         if any(e[0] in ("error", "raised") for e in r["trace"][ci]):
             ctx.fail(case, f"C10:cancel:error-reported:{kindtag}", f"cancel() reported {r['trace'][ci]}")
@@ -498,6 +503,9 @@ def check_session(ctx: Any, m: dict[str, Any], ops: list[list[Any]], cfg: Config
         tags.append("cancel@0" if consumed == 0 else ("cancel@mid" if consumed <= len(m["steps"]) else "cancel@after-last"))
     if perturbed:
         tags.append("input-perturbed")
+    if has_cancel:
+        for op in ops[[o[0] for o in ops].index("cancel") + 1:]:
+            tags.append("after-cancel:" + op[0])
     if m.get("header"):
         tags.append("header")
     ctx.case(case, nontrivial=has_cancel or perturbed or bool(m.get("header")), tags=tags)
@@ -602,15 +610,15 @@ def run(ctx: Any) -> None:
     rng = ctx.rng
     for c in COERCE_CORPUS:
         check_coerce(ctx, c)
-    for _ in range(ctx.budget(400, 20000)):
+    for _ in range(ctx.budget(1500, 20000)):
         check_coerce(ctx, gen_coerce_case(rng))
     for m, ops, cfgs in _corpus():
         for cfg in (cfgs if ctx.tier == "thorough" else cfgs[:1] + cfgs[2:4]):
             check_session(ctx, m, ops, cfg, extra_tags=("corpus",))
-    if ctx.tier == "thorough":
-        exhaustive_grid(ctx)
-        ctx.note("grid", "all step scripts of length <= 2 x every cancel point x {pipe, http, http(cap 1e6)} enumerated")
-    for i in range(ctx.budget(60, 1500)):
+    exhaustive_grid(ctx)
+    ctx.note("grid", "all step scripts of length <= 2 over {emit, finish, emit+finish, raise} x {producer, exchange} x every "
+                     "cancel point x {pipe, http, http(cap 1e6)} enumerated")
+    for i in range(ctx.budget(120, 1500)):
         m = gen_method(rng)
         for cfg in configs_for(rng, m, ctx.tier == "thorough" and i % 3 == 0):
             ops = gen_ops(rng, m, cfg.kind == "http")
